@@ -811,9 +811,9 @@ theorem step_unB {ne0 : Nat} {D : Nat → Prop} {phs : List Ph} {s : St} {held :
   | none => exact ⟨.fin (.nodeNotFound n), by simp [Ph.prog, updateNodePut], key _ (by simp [Exc]) rfl rfl trivial⟩
   | some val =>
     cases val with
-    | node l v0 => exact ⟨.unP n (.node (lab.getD l) v), by simp [Ph.prog, updateNodePut], key _ (by simp [Exc]) rfl rfl trivial⟩
-    | edge r => exact ⟨.unP n (.node (lab.getD 0) v), by simp [Ph.prog, updateNodePut], key _ (by simp [Exc]) rfl rfl trivial⟩
-    | list l => exact ⟨.unP n (.node (lab.getD 0) v), by simp [Ph.prog, updateNodePut], key _ (by simp [Exc]) rfl rfl trivial⟩
+    | node l v0 => exact ⟨.unP n (.node ((lab.map fun x => [x]).getD l) v), by simp [Ph.prog, updateNodePut], key _ (by simp [Exc]) rfl rfl trivial⟩
+    | edge r => exact ⟨.unP n (.node ((lab.map fun x => [x]).getD []) v), by simp [Ph.prog, updateNodePut], key _ (by simp [Exc]) rfl rfl trivial⟩
+    | list l => exact ⟨.unP n (.node ((lab.map fun x => [x]).getD []) v), by simp [Ph.prog, updateNodePut], key _ (by simp [Exc]) rfl rfl trivial⟩
 
 theorem step_unP {ne0 : Nat} {D : Nat → Prop} {phs : List Ph} {s : St} {held : List Key} {i : Nat} {n : Nat} {val : Val}
     (hJ : J ne0 D phs s held) (hi : phs[i]? = some (.unP n val)) :
@@ -1438,8 +1438,7 @@ def Admissible (s0 : St) (programs : List (List Op)) : Op → Prop
   | .updateNode .. => True
   | .deleteEdge e => e ≤ s0.ne
   | .updateEdge e _ => e ≤ s0.ne ∧ ∀ ops ∈ programs, Op.deleteEdge e ∉ ops
-  | .createNode .. => False
-  | .deleteNode .. => False
+  | _ => False
 
 theorem quiescentWF_of_admissible (s0 : St) (h : Inv s0) (programs : List (List Op))
     (hadm : ∀ ops ∈ programs, ∀ op ∈ ops, Admissible s0 programs op) : QuiescentWF s0 programs := by
@@ -1447,8 +1446,6 @@ theorem quiescentWF_of_admissible (s0 : St) (h : Inv s0) (programs : List (List 
   intro ops ho op hop
   have ha := hadm ops ho op hop
   cases op with
-  | createNode l v => exact ha.elim
-  | deleteNode n hint => exact ha.elim
   | createEdge a b d ty v => trivial
   | updateNode n lab v => trivial
   | deleteEdge e => exact ⟨ha, ops, ho, hop⟩
@@ -1456,6 +1453,7 @@ theorem quiescentWF_of_admissible (s0 : St) (h : Inv s0) (programs : List (List 
     refine ⟨ha.1, ?_⟩
     rintro ⟨ops', ho', hm⟩
     exact ha.2 ops' ho' hm
+  | _ => exact ha.elim
 
 theorem quiescentWF_of_adm (s0 : St) (h : Inv s0) (programs : List (List Op))
     (hadm : ∀ ops ∈ programs, ∀ op ∈ ops, op.adm s0.ne) : QuiescentWF s0 programs :=
